@@ -8,12 +8,16 @@ import sys
 
 src, sid, prop, detected, needs = sys.argv[1:6]
 verify_log = sys.argv[6] if len(sys.argv) > 6 else None
+history = sys.argv[7] if len(sys.argv) > 7 else None
 dst = os.path.join('/verif/seeded', sid)
 os.makedirs(dst, exist_ok=True)
 for f in os.listdir(src):
-    if f in ('patch.diff', 'demo.lay', 'session.txt', 'expected_stdout.txt', 'mutant_stdout.txt', 'mutant_stderr.txt',
-             'README.md', 'expected_exit_code.txt', 'mutant_exit_code.txt', 'demo_overflow.lay'):
-        shutil.copy(os.path.join(src, f), os.path.join(dst, f))
+    a = os.path.join(src, f)
+    if os.path.isdir(a):
+        if f != 'target':
+            shutil.copytree(a, os.path.join(dst, f), dirs_exist_ok=True, ignore=shutil.ignore_patterns('target'))
+    elif os.path.getsize(a) < 2_000_000:
+        shutil.copy(a, os.path.join(dst, f))
 ran = {}
 if verify_log and os.path.exists(verify_log):
     t = open(verify_log).read()
@@ -29,5 +33,7 @@ meta = {
     'detected_by_quick_checks': [d for d in detected.split(',') if d],
     'how_checked': 'tools/try_seeded.sh <patch> <checks>: git -C /repo apply, ./check <ID> --tier quick, git -C /repo checkout -- .',
 }
+if history:
+    meta['history'] = history
 json.dump(meta, open(os.path.join(dst, 'meta.json'), 'w'), indent=1)
 print('recorded', sid)
